@@ -275,8 +275,8 @@ def run(p):
     last_double_below_180(p)
     t = p.tier == 'thorough'
     run_chunks(p, [
-        (chunk_exact, 'exact', 64 if t else 4, p.n(50, 700)),
-        (chunk_exact_shipped, 'exact-shipped', 32 if t else 4, p.n(25, 500)),
+        (chunk_exact, 'exact', 64 if t else 8, p.n(25, 400)),
+        (chunk_exact_shipped, 'exact-shipped', 32 if t else 4, p.n(25, 300)),
         (chunk_zone, 'zone', 16 if t else 1, p.n(1200, 12000)),
         (chunk_hemisphere, 'hemisphere', 16 if t else 1, p.n(900, 8000)),
         (chunk_angles, 'angles', 16 if t else 1, p.n(200, 2500)),
